@@ -896,6 +896,10 @@ func (in *Interp) valueEq(a, b Value) *Term {
 		if ok && x.kind == "float" && y.kind == "float" && x.data != nil && y.data != nil {
 			return in.tt.Bool(x.data.(float64) == y.data.(float64))
 		}
+		if ok && x.kind == "rtype" && y.kind == "rtype" {
+			// reflect.Type values are canonical: equal exactly when they denote the same type
+			return in.tt.Bool(types.Identical(x.data.(types.Type), y.data.(types.Type)))
+		}
 		return in.tt.Bool(ok && x == y)
 	}
 	in.unsupported(fmt.Sprintf("equality on %T", a))
